@@ -11,7 +11,7 @@ open Classical
 /-- the carrier of the theorems that need `exp`/`log` -/
 noncomputable def realOps : NumOps ℝ :=
   { ofRat := fun q => (q : ℝ), add := (· + ·), sub := (· - ·), mul := (· * ·), div := (· / ·), neg := (- ·),
-    exp := Real.exp, log := Real.log,
+    exp := Real.exp, log := Real.log, powr := fun a b => a ^ b,
     beq := fun a b => decide (a = b), le := fun a b => decide (a ≤ b), lt := fun a b => decide (a < b) }
 
 @[simp] theorem realOps_zero : realOps.zero = 0 := by simp [NumOps.zero, realOps]
